@@ -26,6 +26,7 @@ import (
 	"strings"
 	"sync/atomic"
 	"testing"
+	"testing/synctest"
 	"time"
 
 	"github.com/modelcontextprotocol/go-sdk/jsonrpc"
@@ -109,6 +110,10 @@ type Script struct {
 	// (as an access filter would), during one more final check: pages may then be empty while still carrying
 	// a next cursor, which manual paging follows and the iterators must follow too.
 	Hidden []int `json:"hidden,omitempty"`
+	// Late: add/rm operations applied at the very end, while a 2026-07-28 session that has list-changed
+	// handlers and has already listed everything (results carrying a 60 s TTL) is connected: after the
+	// change notifications that session must list the new state, on every page.
+	Late []Op `json:"late,omitempty"`
 }
 
 var legacyVersions = []string{"2025-06-18", "2025-06-18", "2025-11-25", "2025-03-26", "2024-11-05"}
@@ -200,6 +205,12 @@ func gen(rt *rapid.T) Script {
 		return op
 	}), rapid.IntRange(0, 24).Draw(rt, "min_ops"), 40).Draw(rt, "ops")
 	s.IterFrom = rapid.IntRange(0, 15).Draw(rt, "iter_from")
+	for i, n := 0, rapid.SampledFrom([]int{0, 1, 2, 3}).Draw(rt, "nlate"); i < n; i++ {
+		op := Op{Op: rapid.SampledFrom([]string{"add", "add", "rm"}).Draw(rt, "late_op"), Kind: rapid.IntRange(0, nKinds-1).Draw(rt, "late_kind")}
+		op.Names = []int{rapid.IntRange(0, len(alphabet)-1).Draw(rt, "late_name")}
+		op.Live = rapid.Bool().Draw(rt, "late_live")
+		s.Late = append(s.Late, op)
+	}
 	if density := rapid.SampledFrom([]int{0, 3, 6, 9}).Draw(rt, "hide_density"); density > 0 {
 		for n := range alphabet {
 			if rapid.IntRange(0, 9).Draw(rt, "hide") < density {
@@ -562,6 +573,7 @@ type env struct {
 	desc   strings.Builder
 	nt     bool
 	hideOn atomic.Bool
+	ttlOn  atomic.Bool
 }
 
 var theT *testing.T
@@ -666,8 +678,72 @@ func runInBubble(s Script, res *vt.Result) {
 			ss2.Close()
 		}
 	}
+	if len(res.Violations) == 0 && len(s.Late) > 0 {
+		e.lateChecks()
+	}
 	res.Desc = e.desc.String()
 	res.NonTrivial = e.nt
+}
+
+// lateChecks: a current-protocol session with list-changed handlers lists everything (filling its
+// per-page cache, TTL 60 s), the feature sets change, the notifications arrive, and it lists again.
+func (e *env) lateChecks() {
+	ct, st := mcp.NewInMemoryTransports()
+	ctx := context.Background()
+	ss, err := e.server.Connect(ctx, st, nil)
+	if err != nil {
+		e.res.Failf("harness: %v", err)
+		return
+	}
+	client := mcp.NewClient(&mcp.Implementation{Name: "cached", Version: "1"}, &mcp.ClientOptions{
+		ToolListChangedHandler:     func(context.Context, *mcp.ToolListChangedRequest) {},
+		PromptListChangedHandler:   func(context.Context, *mcp.PromptListChangedRequest) {},
+		ResourceListChangedHandler: func(context.Context, *mcp.ResourceListChangedRequest) {},
+	})
+	cs, err := client.Connect(ctx, ct, nil)
+	if err != nil {
+		ss.Close()
+		e.res.Failf("harness: connect of the caching session: %v", err)
+		return
+	}
+	defer func() {
+		cs.Close()
+		ss.Close()
+	}()
+	e.ttlOn.Store(true)
+	defer e.ttlOn.Store(false)
+	limit := 4*len(alphabet) + 10
+	version := cs.InitializeResult().ProtocolVersion
+	listAll := func(phase string) bool {
+		for k := 0; k < nKinds; k++ {
+			got, err := iterate(cs, k, nil, limit)
+			if err != nil {
+				e.res.Failf("%s (protocol %s, %s): iterator failed after yielding %q: %v", kindName[k], version, phase, got, err)
+				return false
+			}
+			if want := e.m.sorted(k); !slices.Equal(got, want) {
+				e.res.Failf("%s (protocol %s, %s, page size %d): iterator yielded %q, registered are %q", kindName[k], version, phase, e.s.PageSize, got, want)
+				return false
+			}
+		}
+		return true
+	}
+	if !listAll("first listing of a caching session") {
+		return
+	}
+	for _, op := range e.s.Late {
+		e.m.now++
+		e.exec(op)
+	}
+	synctest.Wait()
+	time.Sleep(time.Second) // list-changed notifications are debounced
+	synctest.Wait()
+	if listAll("listing again after list-changed notifications, within the TTL") {
+		e.res.Class("relisted_after_change_within_ttl")
+		if e.s.PageSize < 4 {
+			e.nt = true
+		}
+	}
 }
 
 func (e *env) kind(k int) int { return ((k % nKinds) + nKinds) % nKinds }
@@ -1173,6 +1249,18 @@ func (e *env) hidden(kind int, id string) bool {
 func (e *env) hidingMiddleware(next mcp.MethodHandler) mcp.MethodHandler {
 	return func(ctx context.Context, method string, req mcp.Request) (mcp.Result, error) {
 		res, err := next(ctx, method, req)
+		if err == nil && e.ttlOn.Load() {
+			switch r := res.(type) {
+			case *mcp.ListToolsResult:
+				r.TTLMs = 60_000
+			case *mcp.ListPromptsResult:
+				r.TTLMs = 60_000
+			case *mcp.ListResourcesResult:
+				r.TTLMs = 60_000
+			case *mcp.ListResourceTemplatesResult:
+				r.TTLMs = 60_000
+			}
+		}
 		if err != nil || !e.hideOn.Load() {
 			return res, err
 		}
